@@ -40,3 +40,10 @@ Proof. repeat split; vm_compute; reflexivity. Qed.
 (* the limits RFC 1035 gives *)
 Lemma name_limits : LABEL_MAX_LEN = 63 /\ DOMAINNAME_MAX_LEN = 255.
 Proof. split; vm_compute; reflexivity. Qed.
+
+(* every &self method of SharedCache takes the mutex exactly once (syntactic fact about cache.rs read by the
+   table translator): each call is one critical section, so a concurrent history of calls is one of the
+   sequential histories the cache theorems (C05, C15) quantify over.  The mutual exclusion itself is
+   std::sync::Mutex's. *)
+Lemma shared_cache_methods_atomic : shared_cache_single_lock = true.
+Proof. vm_compute. reflexivity. Qed.
